@@ -5,6 +5,7 @@ import DarkluaModel.C05.Complete
 import DarkluaModel.C05.Compose
 import DarkluaModel.Shared.VisitorSoundHeapV
 import DarkluaModel.C05.Unrequired
+import DarkluaModel.C05.OneModule
 /-!
 # C05 — a bundle behaves like the program with its modules required normally: property theorems
 
@@ -205,7 +206,7 @@ def bundleProgram (M : String) (mods : List (String × Src)) (entry : Src) : Blo
   let call := fun k => accessorCall M (nameAt names k)
   assemble M (mods.map fun (n, src) => (n, src call)) (entry call)
 
-/-- the same sources run with a textbook `require`: a `package.loaded`-style cache keyed by the
+/- the same sources run with a textbook `require`: a `package.loaded`-style cache keyed by the
 module's name, each body wrapped in a function that runs on first use, its first value cached
 in a box (so `nil`/`false` count as loaded):
 ```lua
@@ -218,18 +219,6 @@ end
 __ref_modules["<name>"] = function() <body> end …
 <entry>
 ``` -/
-def refRequireFn : FnBody := .mk [.mk "name" none] false none none [] []
-  (.mk
-    [ .localAssign .loc [.mk "box" none] [.index (.var "__ref_loaded") (.var "name")],
-      .ifs [(.bin .eq (.var "box") .nil,
-        .mk [ .assign [.var "box"]
-                [.table [.named "value" (.paren (.call (.index (.var "__ref_modules") (.var "name")) none .tuple []))]],
-              .assign [.index (.var "__ref_loaded") (.var "name")] [.var "box"] ] none)] none ]
-    (some (.ret [.field (.var "box") "value"])))
-
-/-- the call that stands for `require` of module `n` in the reference program -/
-def refCall (n : String) : Expr := .call (.var "__ref_require") none .tuple [.str (strToBytes n)]
-
 /-- the reference program around already rewritten module bodies and entry -/
 def referenceBlocks (mods : List (String × Block)) (entry : Block) : Block :=
   match entry with
@@ -276,27 +265,6 @@ theorem bundle_refines_hoas_full_false : ¬ bundle_refines_hoas_full := by
 
 /-! ### the statement over syntactic sources -/
 
-/-- the bundler's rewriting of one node: a call of the global `require` with one string literal whose
-resolution `f` knows becomes `f lit` (`try_inline_call` through `process_expression`,
-`process_prefix_expression` and `process_statement`) -/
-def requireHook (f : List UInt8 → Option Expr) : Expr → Expr
-  | .call (.var "require") none k [.str lit] => (f lit).getD (.call (.var "require") none k [.str lit])
-  | e => e
-
-def requireStmtHook (f : List UInt8 → Option Expr) : Stmt → Stmt
-  | .callStmt c => .callStmt (requireHook f c)
-  | x => x
-
-/-- the rewriting as a `Processor` of the shared visitor model -/
-def rewriteP (f : List UInt8 → Option Expr) : Processor Unit :=
-  { expr := fun e s => (requireHook f e, s)
-    pref := fun e s => (requireHook f e, s)
-    stmt := fun x s => (requireStmtHook f x, s) }
-
-/-- a source file with its requires rewritten (the walk of `DefaultVisitor`; sources are assumed not
-to declare a local `require`, see `reservedOK`) -/
-def rewriteRequires (f : List UInt8 → Option Expr) (b : Block) : Block := (Visitor.runDefault (rewriteP f) b ()).1
-
 /-- what is bundled: module SOURCES (syntax, with their `require("…")` calls) under their accessor
 names, the entry source, and which module a require literal designates (`none`: left alone) -/
 structure BundleInput where
@@ -307,15 +275,18 @@ structure BundleInput where
 
 def BundleInput.names (I : BundleInput) : List String := I.mods.map (·.1)
 
+/-- The bundler's rewriting of a node (`try_inline_call` through `process_expression`,
+`process_prefix_expression`, `process_statement`): a call of `require` with one string literal that the
+resolution designates becomes the accessor call `M.<n>()` — on the reference side `__ref_require("<n>")`.
+A `Sem.HeapU.Matcher`: both programs are images of ONE source under two substitutions (`subB m true / false`). -/
+def BundleInput.matcher (I : BundleInput) : Sem.HeapU.Matcher := fun e =>
+  match e with
+  | .call (.var "require") none _ [.str lit] => (I.res lit).map fun n => (accessorCall I.M n, refCall n)
+  | _ => none
+
 /-- the bundle darklua emits -/
 def BundleInput.bundle (I : BundleInput) : Block :=
-  let f := fun lit => (I.res lit).map (accessorCall I.M)
-  assemble I.M (I.mods.map fun (n, src) => (n, rewriteRequires f src)) (rewriteRequires f I.entry)
-
-/-- the same sources run with the textbook `require` -/
-def BundleInput.reference (I : BundleInput) : Block :=
-  let f := fun lit => (I.res lit).map refCall
-  referenceBlocks (I.mods.map fun (n, src) => (n, rewriteRequires f src)) (rewriteRequires f I.entry)
+  assemble I.M (I.mods.map fun nb => (nb.1, Sem.HeapU.subB I.matcher true nb.2)) (Sem.HeapU.subB I.matcher true I.entry)
 
 /-- names the sources must not mention (they belong to the generated code of one side or the other) -/
 def BundleInput.reserved (I : BundleInput) : List DName :=
@@ -325,103 +296,141 @@ def BundleInput.reserved (I : BundleInput) : List DName :=
 def BundleInput.reservedOK (I : BundleInput) (b : Block) : Bool :=
   I.reserved.all (fun x => !b.refs x) && !b.refs (.wat "require")
 
-/-- FULL statement of `bundle_refines` (kept visible, NOT proved): for module and entry SOURCES
+/-- the same sources run with the textbook `require` -/
+def BundleInput.reference (I : BundleInput) : Block :=
+  referenceBlocks (I.mods.map fun nb => (nb.1, Sem.HeapU.subB I.matcher false nb.2)) (Sem.HeapU.subB I.matcher false I.entry)
+
+/-- FULL statement of `bundle_refines` (kept visible, NOT proved in general): for module and entry SOURCES
 that respect the reserved names, pairwise distinct accessor names other than `cache`, a resolution
 that only designates bundled modules, and external functions that return no heap references:
 whenever the program with the textbook `require` returns values `vs` with trace `tr` at some level,
 the bundle returns the same values with the same trace at some level.
-
-Proved towards it: `bundle_refines_partial_nomodules` (the statement itself when no module is bundled
-— through the stage-4 lifting: `Visitor.runDefault_v`, `VkB.dropLocal`, `VkB.dropLocalFn`,
-`chain_runProgram`), `bundle_prelude_establishes`, `bundle_dag_memoises`, `bodyOK_requires`,
-`accessor_memoises`, `definition_scoped`, `inline_dag`.
-
-What is missing for modules (`meta/C05.json`, `proof_gaps`): at a rewritten call site the bundle
-evaluates `M.<n>()` and the reference `__ref_require("<n>")`. These are related only BECAUSE of what
-the local `M` (a one-sided table holding the accessor closures) and the local `__ref_require`
-(a one-sided closure over the one-sided tables `__ref_loaded`, `__ref_modules`) are bound to. The
-generic leaves of stage 4 (`VR.genE`: `SoundE Q D a b` for ALL `SRel`-related states and all
-environments related outside the dead set `D`) carry no such context: once `M` / `__ref_require` are
-dead names nothing is known about their bindings, and stage 4 has no invariant on one-sided tables
-and cells (pins exist for LEFT closures only: `Inj.pinF`, `SRel.allocClosureLeftPinned`,
-`SRel.matchClosureRight`). `Sem.HeapV.renumbering_invariance` (now a theorem) relates two runs of the
-SAME chunk on renumbered states, it does not relate two different chunks. The harness checks the
-statement by execution on every generated graph instead. -/
+Proved instances: `bundle_refines_partial_nomodules`, `bundle_refines_partial_unrequired`; towards
+required modules see `bundle_refines_of_leaf` below and `meta/C05.json` (`proof_gaps`). -/
 def bundle_refines_full : Prop :=
-  ∀ (N : NumOps) (ρ : ExtOracle N) (_hρ : HeapV.OracleFlat ρ) (externs : List String) (I : BundleInput)
+  ∀ (N : NumOps) (ρ : ExtOracle N) (_hρ : Sem.HeapU.OracleFlat ρ) (externs : List String) (I : BundleInput)
     (n : Nat) (vs : List CVal) (tr : List Event),
     I.names.Nodup → "cache" ∉ I.names → (∀ lit nm, I.res lit = some nm → nm ∈ I.names) →
     I.reservedOK I.entry = true → (∀ m ∈ I.mods, I.reservedOK m.2 = true) →
     runProgram ρ n externs I.reference = .returned vs tr →
     ∃ m, runProgram ρ m externs I.bundle = .returned vs tr
 
-section nomodules
-open Sem.HeapV
+section unrequired
+open Sem.HeapU
 
-theorem requireHook_none (f : List UInt8 → Option Expr) (hf : ∀ lit, f lit = none) (e : Expr) : requireHook f e = e := by
-  unfold requireHook
-  split
-  · simp [hf]
-  · rfl
+/-- dead names of the two preludes at the top level -/
+def topDead (M : String) : List DName := [.ref M, .ref "__ref_loaded", .ref "__ref_modules", .ref "__ref_require"]
 
-theorem requireStmtHook_none (f : List UInt8 → Option Expr) (hf : ∀ lit, f lit = none) (x : Stmt) :
-    requireStmtHook f x = x := by
-  unfold requireStmtHook
-  split
-  · rw [requireHook_none f hf]
-  · rfl
+theorem referenceBlocks_eq (mods : List (String × Block)) (stmts : List Stmt) (last : Option Last) :
+    referenceBlocks mods (.mk stmts last)
+      = .mk (([refLa, .localFn .loc "__ref_require" refRequireFn] ++ mods.map refAssign) ++ stmts) last := by
+  simp only [referenceBlocks, refLa, List.append_assoc]
+  congr 2
 
-/-- when nothing is designated the rewriting hooks are identities, hence stage-4 hooks -/
-theorem rewriteP_hooksV (f : List UInt8 → Option Expr) (hf : ∀ lit, f lit = none) : HooksV (rewriteP f) where
-  expr := fun e s => by
-    show Chain VkE e (requireHook f e); rw [requireHook_none f hf]; exact Chain.refl _
-  pref := fun e s => by
-    show Chain VkE e (requireHook f e); rw [requireHook_none f hf]; exact Chain.refl _
-  stmt := fun x s => by
-    show Chain VkS x (requireStmtHook f x); rw [requireStmtHook_none f hf]; exact Chain.refl _
+theorem noRef_topDead (I : BundleInput) (b : Block) (h : I.reservedOK b = true) : NoRefB (topDead I.M) b := by
+  intro x hx
+  simp only [BundleInput.reservedOK, BundleInput.reserved, Bool.and_eq_true, List.all_eq_true] at h
+  have := h.1 x (by
+    simp only [topDead, List.mem_cons, List.mem_nil_iff, or_false] at hx
+    simp only [List.mem_cons, List.mem_nil_iff, or_false]
+    rcases hx with h | h | h | h <;> simp [h])
+  simpa using this
 
-theorem chain_noRef {b b' : Block} (h : Chain VkB b b') (D : List DName) (hw : WOK D) (hn : NoRefB D b) : NoRefB D b' := by
-  induction h with
-  | refl => exact hn
-  | cons hl _ ih => exact ih (hl D hw hn).2
+/-- the common core: once both preludes have run (at level `k`) and only extended the heap, the rest
+of the two programs — the two images of the entry source — have the same outcome -/
+theorem unrequired_core {N : NumOps} (ρ : ExtOracle N) (hρ : OracleFlat ρ) (externs : List String) (I : BundleInput)
+    (k : Nat) (hres : ∀ lit, I.res lit = none) (hentry : I.reservedOK I.entry = true)
+    (modsB modsR : List (String × Block))
+    (hB : ∃ (envB : Env N) (σB : State N),
+      execSs (callClosure ρ k) ρ k ⟨[], []⟩ (prelude I.M modsB) (initState externs) = .ok (.next envB) σB ∧
+      StExt (initState externs) σB ∧ envB.varargs = [] ∧ ∀ nm, DName.ref nm ∉ topDead I.M → lookupAssoc nm envB.locals = none)
+    (hR : ∃ (envR : Env N) (σR : State N),
+      execSs (callClosure ρ k) ρ k ⟨[], []⟩ ([refLa, .localFn .loc "__ref_require" refRequireFn] ++ modsR.map refAssign)
+        (initState externs) = .ok (.next envR) σR ∧
+      StExt (initState externs) σR ∧ envR.varargs = [] ∧ ∀ nm, DName.ref nm ∉ topDead I.M → lookupAssoc nm envR.locals = none) :
+    runProgram ρ k externs (assemble I.M modsB (subB I.matcher true I.entry))
+      = runProgram ρ k externs (referenceBlocks modsR (subB I.matcher false I.entry)) := by
+  obtain ⟨envB, σB, hexB, hextB, hvaB, hlocB⟩ := hB
+  obtain ⟨envR, σR, hexR, hextR, hvaR, hlocR⟩ := hR
+  have hnoref := noRef_topDead I I.entry hentry
+  have hleaf : ∀ e p, I.matcher e = some p → NoRefE (topDead I.M) e →
+      VR Cx.none (topDead I.M) (.e p.1) (.e p.2) (topDead I.M) := by
+    intro e p hm _
+    simp only [BundleInput.matcher] at hm
+    split at hm
+    · simp [hres] at hm
+    · cases hm
+  have hvr := subB_vr (cx := Cx.none) hleaf I.entry hnoref
+  have hs0 : SRel (VQ Cx.none) Cx.none initRel (initState externs : State N) (initState externs) :=
+    SRel.init (VQ Cx.none) externs trivial
+  have hs := (hs0.extLeft hextB).extRight hextR
+  have he : EnvOK Cx.none (initRel (N := N)) (topDead I.M) envB envR := by
+    refine ⟨by rw [hvaB, hvaR]; exact .nil, fun nm hnm => ?_, fun nm hnm => ?_, fun nm hnm => ?_⟩
+    · rw [hlocB nm hnm, hlocR nm hnm]; simp [OptRel]
+    · simp [Cx.none] at hnm
+    · simp [topDead] at hnm
+  have hobs := observe_of_soundB (fundB hvr) ρ hρ (fun _ => trivial) k hs he
+  cases hsb : subB I.matcher true I.entry with
+  | mk stB lastB =>
+    cases hsr : subB I.matcher false I.entry with
+    | mk stR lastR =>
+      rw [hsb, hsr] at hobs
+      have h1 : execB (callClosure ρ k) ρ k ⟨[], []⟩ (assemble I.M modsB (.mk stB lastB)) (initState externs)
+          = execB (callClosure ρ k) ρ k envB (.mk stB lastB) σB := by
+        simp only [assemble]
+        exact execB_append_next _ ρ _ _ stB lastB _ _ _ _ hexB
+      have h2 : execB (callClosure ρ k) ρ k ⟨[], []⟩ (referenceBlocks modsR (.mk stR lastR)) (initState externs)
+          = execB (callClosure ρ k) ρ k envR (.mk stR lastR) σR := by
+        rw [referenceBlocks_eq]
+        exact execB_append_next _ ρ _ _ stR lastR _ _ _ _ hexR
+      simp only [runProgram, runChunk_eq_wrapCtl, h1, h2]
+      rcases hobs with ⟨h, _⟩ | ⟨h, _⟩ | h
+      · cases h
+      · cases h
+      · exact h.symm
 
-/-- the names the reference program's own prelude declares -/
-def refNamesD : List DName := [.ref "__ref_loaded", .ref "__ref_modules", .ref "__ref_require"]
+/-- **`bundle_refines_partial_unrequired`** — modules ARE bundled (any number, arbitrary bodies), but no
+require designates one of them: at every level ≥ 1 the bundle and the reference program have the
+same outcome. Proved with `Sem.HeapU`: both generated preludes are executed concretely and only
+EXTEND the heap (`StExt`), so the two images of the entry source (`subB_vr`, no matched node) run from
+`SRel`-related states in environments that agree outside the dead names (`fundB`, `observe_of_soundB`).
+(At level 0 both programs exhaust their budget in their prelude when there is a module.) -/
+theorem bundle_refines_partial_unrequired {N : NumOps} (ρ : ExtOracle N) (hρ : OracleFlat ρ)
+    (externs : List String) (I : BundleInput) (n : Nat)
+    (hres : ∀ lit, I.res lit = none)
+    (hMv : I.M ≠ "v") (hMI : I.M ≠ implName)
+    (hnodup : (I.mods.map fun nb => bytesOf nb.1).Nodup)
+    (hcache : ∀ nb ∈ I.mods, bytesOf nb.1 ≠ bytesOf "cache")
+    (hentry : I.reservedOK I.entry = true) :
+    runProgram ρ (n + 1) externs I.bundle = runProgram ρ (n + 1) externs I.reference := by
+  refine unrequired_core ρ hρ externs I (n + 1) hres hentry _ _ ?_ ?_
+  · generalize hm : (I.mods.map fun nb => (nb.1, subB I.matcher true nb.2)) = mods'
+    have hnodup' : (mods'.map fun nb => bytesOf nb.1).Nodup := by rw [← hm, List.map_map]; exact hnodup
+    have hcache' : ∀ nb ∈ mods', bytesOf nb.1 ≠ bytesOf "cache" := by
+      rw [← hm]; intro nb hnb
+      obtain ⟨x, hx, rfl⟩ := List.mem_map.mp hnb
+      exact hcache x hx
+    by_cases hne : mods' = []
+    · subst hne
+      exact ⟨⟨[], []⟩, _, by simp [prelude, execSs], StExt.refl _, rfl, fun _ _ => rfl⟩
+    · obtain ⟨infos, σ', _, hex, _, hfold⟩ := prelude_establishes (callClosure ρ (n + 1)) ρ n ⟨[], []⟩ I.M mods'
+        (initState externs) hne hMv hMI hnodup' hcache'
+      refine ⟨_, σ', hex, ?_, rfl, ?_⟩
+      · rw [hfold]
+        exact foldDefs_ext I.M _ _ mods' (afterTable_ext _) (by simp [initState])
+      · intro nm hnm
+        have : ¬ I.M = nm := fun e => hnm (by simp [topDead, e])
+        simp [lookupAssoc, this]
+  · obtain ⟨envR, σR, hexR, hextR, hvaR, hlocR⟩ := exec_refPrelude (callClosure ρ (n + 1)) ρ n ⟨[], []⟩ refRequireFn
+      (I.mods.map fun nb => (nb.1, subB I.matcher false nb.2)) (initState externs)
+    refine ⟨envR, σR, hexR, hextR, hvaR, ?_⟩
+    intro nm hnm
+    have h1 : ¬ "__ref_require" = nm := fun e => hnm (by simp [topDead, ← e])
+    have h2 : ¬ "__ref_modules" = nm := fun e => hnm (by simp [topDead, ← e])
+    have h3 : ¬ "__ref_loaded" = nm := fun e => hnm (by simp [topDead, ← e])
+    rw [hlocR]; simp [lookupAssoc, h1, h2, h3]
 
-theorem wok_refNamesD : WOK refNamesD := by
-  intro n h; simp [refNamesD] at h
-
-/-- the reference program's prelude is dead code for an entry that does not mention its names -/
-theorem reference_nomodules (entry : Block) (hn : NoRefB refNamesD entry) {N : NumOps} (ρ : ExtOracle N)
-    (hρ : OracleFlat ρ) (n : Nat) (externs : List String) :
-    runProgram ρ n externs (referenceBlocks [] entry) = runProgram ρ n externs entry := by
-  obtain ⟨stmts, last⟩ := entry
-  have href : ∀ x ∈ refNamesD, (Block.mk stmts last).refs x = false := hn
-  have htail : ∀ nm, DName.ref nm ∈ refNamesD → Heap.tailRefs nm stmts last = false := by
-    intro nm hm
-    have := href _ hm
-    cases last with
-    | none => simpa [Heap.tailRefs, Block.refs] using this
-    | some l => simpa [Heap.tailRefs, Block.refs] using this
-  let la : Stmt := .localAssign .loc [.mk "__ref_loaded" none, .mk "__ref_modules" none] [.table [], .table []]
-  have link1 : VkB (.mk ([la] ++ .localFn .loc "__ref_require" refRequireFn :: stmts) last) (.mk ([la] ++ stmts) last) :=
-    VkB.dropLocalFn (htail "__ref_require" (by simp [refNamesD]))
-  have link2 : VkB (.mk ([] ++ la :: stmts) last) (.mk ([] ++ stmts) last) :=
-    VkB.dropLocal (allocPureAll_sound _ rfl) (by
-      intro nm hnm
-      simp [TName.name] at hnm
-      rcases hnm with h | h <;> subst h
-      · exact htail _ (by simp [refNamesD])
-      · exact htail _ (by simp [refNamesD]))
-  have := chain_runProgram (Chain.cons link1 (Chain.single link2)) ρ hρ n externs
-  simpa [referenceBlocks, la] using this.symm
-
-/-- **`bundle_refines_partial_nomodules`** — the full statement (even with equal levels) for inputs
-that bundle no module: every require is left alone, the bundle is the entry itself, and the
-reference program is the entry behind a prelude it never uses. Proved with the stage-4 lifting
-(`Visitor.runDefault_v` for the walk, `VkB.dropLocalFn` / `VkB.dropLocal` + `chain_runProgram` for
-the prelude). Hypothesis (decidable): `I.mods = []`; what is missing for modules is described at
-`bundle_refines_full`. -/
+/-- **`bundle_refines_partial_nomodules`** — no module bundled: equal outcomes at EVERY level -/
 theorem bundle_refines_partial_nomodules {N : NumOps} (ρ : ExtOracle N) (hρ : OracleFlat ρ) (externs : List String)
     (I : BundleInput) (n : Nat)
     (hmods : I.mods = [])
@@ -435,34 +444,19 @@ theorem bundle_refines_partial_nomodules {N : NumOps} (ρ : ExtOracle N) (hρ : 
     | some nm =>
       have := hres lit nm h
       simp [BundleInput.names, hmods] at this
-  have hfB : ∀ lit, (fun lit => (I.res lit).map (accessorCall I.M)) lit = none := fun lit => by simp [hnone lit]
-  have hfR : ∀ lit, (fun lit => (I.res lit).map refCall) lit = none := fun lit => by simp [hnone lit]
-  -- the entry's own walk changes nothing observable, on either side
-  have hB := Visitor.runDefault_v (rewriteP_hooksV _ hfB) I.entry () ρ hρ n externs
-  have hR := Visitor.runDefault_v (rewriteP_hooksV _ hfR) I.entry () ρ hρ n externs
-  -- the rewritten entry still does not mention the reference prelude's names
-  have hnoref : NoRefB refNamesD I.entry := by
-    intro x hx
-    have h := hentry
-    simp only [BundleInput.reservedOK, BundleInput.reserved, Bool.and_eq_true, List.all_eq_true] at h
-    have := h.1 x (by
-      simp only [refNamesD, List.mem_cons, List.mem_nil_iff, or_false] at hx
-      simp only [List.mem_cons, List.mem_nil_iff, or_false]
-      rcases hx with h | h | h <;> simp [h])
-    simpa using this
-  have hchain : Chain VkB I.entry (rewriteRequires (fun lit => (I.res lit).map refCall) I.entry) :=
-    Visitor.visit_chain_v (rewriteP_hooksV _ hfR) false _ true I.entry ()
-  have hnoref' := chain_noRef hchain refNamesD wok_refNamesD hnoref
-  have hRef := reference_nomodules _ hnoref' ρ hρ n externs
-  -- assemble with no module adds nothing
-  have hasm : ∀ b : Block, assemble I.M [] b = b := by
-    intro b; cases b; simp [assemble, prelude]
-  simp only [BundleInput.bundle, BundleInput.reference, hmods, List.map_nil, hasm]
-  rw [hRef]
-  exact hB.trans hR.symm
+  simp only [BundleInput.bundle, BundleInput.reference, hmods, List.map_nil]
+  refine unrequired_core ρ hρ externs I n hnone hentry [] [] ?_ ?_
+  · exact ⟨⟨[], []⟩, _, by simp [prelude, execSs], StExt.refl _, rfl, fun _ _ => rfl⟩
+  · obtain ⟨envR, σR, hexR, hextR, hvaR, hlocR⟩ := exec_refPrelude_nil (callClosure ρ n) ρ n ⟨[], []⟩ refRequireFn
+      (initState externs)
+    refine ⟨envR, σR, by simpa using hexR, hextR, hvaR, ?_⟩
+    intro nm hnm
+    have h1 : ¬ "__ref_require" = nm := fun e => hnm (by simp [topDead, ← e])
+    have h2 : ¬ "__ref_modules" = nm := fun e => hnm (by simp [topDead, ← e])
+    have h3 : ¬ "__ref_loaded" = nm := fun e => hnm (by simp [topDead, ← e])
+    rw [hlocR]; simp [lookupAssoc, h1, h2, h3]
 
--- non-vacuity of `bundle_refines_partial_nomodules`: an entry that calls `require` (left alone: nothing is
--- designated) and an external function; the hypotheses hold by evaluation
+-- non-vacuity: an entry that calls `require` (left alone: nothing is designated) and an external function
 def exNoModules : BundleInput :=
   { M := "__DARKLUA_BUNDLE_MODULES", mods := [], res := fun _ => none,
     entry := .mk [.callStmt (.call (.var "emit") none .tuple [.call (.var "require") none .tuple [.str [46, 47, 120]]])]
@@ -475,119 +469,14 @@ example (ρ : ExtOracle natOps) (hρ : OracleFlat ρ) (n : Nat) :
 example : OracleFlat (N := natOps) (fun _ _ _ => []) := by
   intro name k args v hv; cases hv
 
-end nomodules
-
-section unrequired
-
-/-- dead names of the two preludes at the top level -/
-def topDead (M : String) : List DName := [.ref M, .ref "__ref_loaded", .ref "__ref_modules", .ref "__ref_require"]
-
-theorem referenceBlocks_eq (mods : List (String × Block)) (stmts : List Stmt) (last : Option Last) :
-    referenceBlocks mods (.mk stmts last)
-      = .mk (([refLa, .localFn .loc "__ref_require" refRequireFn] ++ mods.map refAssign) ++ stmts) last := by
-  simp only [referenceBlocks, refLa, List.append_assoc]
-  congr 2
-
-/-- **`bundle_refines_partial_unrequired`** — modules ARE bundled (any number, arbitrary bodies), but no
-require designates one of them: at every level ≥ 1 the bundle and the reference program have the
-same outcome. Proved with `Sem.HeapU`: both generated preludes are executed concretely and only
-EXTEND the heap (`StExt`), so the remaining code — the entry, arbitrary, identical on both sides —
-runs from `SRel`-related states (`SRel.init`, `extLeft`, `extRight`) in environments that agree outside
-the dead names `M`, `__ref_loaded`, `__ref_modules`, `__ref_require` (`reflB`, `RRel.retWrap`, `observe_rel`).
-(At level 0 both programs exhaust their budget in their prelude when there is a module.) -/
-theorem bundle_refines_partial_unrequired {N : NumOps} (ρ : ExtOracle N) (hρ : Sem.HeapU.OracleFlat ρ)
-    (externs : List String) (I : BundleInput) (n : Nat)
-    (hres : ∀ lit, I.res lit = none)
-    (hMv : I.M ≠ "v") (hMI : I.M ≠ implName)
-    (hnodup : (I.mods.map fun nb => bytesOf nb.1).Nodup)
-    (hcache : ∀ nb ∈ I.mods, bytesOf nb.1 ≠ bytesOf "cache")
-    (hentry : I.reservedOK I.entry = true) :
-    runProgram ρ (n + 1) externs I.bundle = runProgram ρ (n + 1) externs I.reference := by
-  -- both sides rewrite with the same (identity) hook: the rewritten sources coincide
-  have hf : (fun lit => (I.res lit).map (accessorCall I.M)) = (fun lit => (I.res lit).map refCall) := by
-    funext lit; simp [hres lit]
-  have hfR : ∀ lit, (fun lit => (I.res lit).map refCall) lit = none := fun lit => by simp [hres lit]
-  -- the rewritten entry still respects the dead names (stage-4 chain of identity hooks)
-  have hnoref0 : NoRefB (topDead I.M) I.entry := by
-    intro x hx
-    have h := hentry
-    simp only [BundleInput.reservedOK, BundleInput.reserved, Bool.and_eq_true, List.all_eq_true] at h
-    have := h.1 x (by
-      simp only [topDead, List.mem_cons, List.mem_nil_iff, or_false] at hx
-      simp only [List.mem_cons, List.mem_nil_iff, or_false]
-      rcases hx with h | h | h | h <;> simp [h])
-    simpa using this
-  have hchain : Chain Sem.HeapV.VkB I.entry (rewriteRequires (fun lit => (I.res lit).map refCall) I.entry) :=
-    Visitor.visit_chain_v (rewriteP_hooksV _ hfR) false _ true I.entry ()
-  have hnoref := chain_noRef hchain (topDead I.M) (by intro m h; simp [topDead] at h) hnoref0
-  simp only [BundleInput.bundle, BundleInput.reference, hf]
-  generalize rewriteRequires (fun lit => (I.res lit).map refCall) I.entry = e' at hnoref
-  generalize hm : (I.mods.map fun (x : String × Block) => (x.1, rewriteRequires (fun lit => (I.res lit).map refCall) x.2)) = mods'
-  obtain ⟨stmts, last⟩ := e'
-  -- the two preludes, run concretely
-  have hnodup' : (mods'.map fun nb => bytesOf nb.1).Nodup := by
-    rw [← hm, List.map_map]; exact hnodup
-  have hcache' : ∀ nb ∈ mods', bytesOf nb.1 ≠ bytesOf "cache" := by
-    rw [← hm]; intro nb hnb
-    obtain ⟨x, hx, rfl⟩ := List.mem_map.mp hnb
-    exact hcache x hx
-  let σ0 : State N := initState externs
-  obtain ⟨envB, σB, hexB, hextB, henvB⟩ : ∃ (envB : Env N) (σB : State N),
-      execSs (callClosure ρ (n + 1)) ρ (n + 1) ⟨[], []⟩ (prelude I.M mods') σ0 = .ok (.next envB) σB ∧
-      Sem.HeapU.StExt σ0 σB ∧ (envB.varargs = [] ∧ ∀ nm, DName.ref nm ∉ topDead I.M → lookupAssoc nm envB.locals = none) := by
-    by_cases hne : mods' = []
-    · subst hne
-      exact ⟨⟨[], []⟩, σ0, by simp [prelude, execSs], Sem.HeapU.StExt.refl _, rfl, fun _ _ => rfl⟩
-    · obtain ⟨infos, σ', _, hex, _, hfold⟩ := prelude_establishes (callClosure ρ (n + 1)) ρ n ⟨[], []⟩ I.M mods' σ0 hne
-        hMv hMI hnodup' hcache'
-      refine ⟨_, σ', hex, ?_, rfl, ?_⟩
-      · rw [hfold]
-        exact foldDefs_ext I.M _ _ mods' (afterTable_ext σ0) (by simp)
-      · intro nm hnm
-        have : ¬ I.M = nm := fun e => hnm (by simp [topDead, e])
-        simp [lookupAssoc, this]
-  obtain ⟨envR, σR, hexR, hextR, hvaR, hlocR⟩ := exec_refPrelude (callClosure ρ (n + 1)) ρ n ⟨[], []⟩ refRequireFn mods' σ0
-  -- related states and environments for the rest
-  have hs0 : Sem.HeapU.SRel (Sem.HeapU.VQ Sem.HeapU.Cx.none) Sem.HeapU.Cx.none Sem.HeapU.initRel σ0 σ0 :=
-    Sem.HeapU.SRel.init (Sem.HeapU.VQ Sem.HeapU.Cx.none) externs trivial
-  have hs := (hs0.extLeft hextB).extRight hextR
-  have he : Sem.HeapU.EnvOK Sem.HeapU.Cx.none (Sem.HeapU.initRel (N := N)) (topDead I.M) envB envR := by
-    refine ⟨by rw [henvB.1, hvaR]; exact .nil, .ofNoWat ?_ (by intro m h; simp [topDead] at h)⟩
-    intro nm hnm
-    rw [henvB.2 nm hnm, hlocR]
-    have h1 : ¬ "__ref_require" = nm := fun e => hnm (by simp [topDead, ← e])
-    have h2 : ¬ "__ref_modules" = nm := fun e => hnm (by simp [topDead, ← e])
-    have h3 : ¬ "__ref_loaded" = nm := fun e => hnm (by simp [topDead, ← e])
-    simp [lookupAssoc, h1, h2, h3, OptRel]
-  have hsound := (Sem.HeapU.reflB (Q := Sem.HeapU.VQ Sem.HeapU.Cx.none) (cx := Sem.HeapU.Cx.none) Sem.HeapU.VQ_refl
-    (.mk stmts last) (topDead I.M) hnoref).2 N (callClosure ρ (n + 1)) ρ (n + 1) envB envR σB σR _
-    ⟨trivial, Sem.HeapU.callClosure_ok ρ hρ (fun _ => trivial) (n + 1), hρ⟩ hs he
-  have hobs := Sem.HeapU.observe_rel (Sem.HeapU.RRel.retWrap hsound)
-  -- put the programs in `prelude ++ rest` form
-  have hB : execB (callClosure ρ (n + 1)) ρ (n + 1) ⟨[], []⟩ (assemble I.M mods' (.mk stmts last)) σ0
-      = execB (callClosure ρ (n + 1)) ρ (n + 1) envB (.mk stmts last) σB := by
-    simp only [assemble]
-    exact execB_append_next _ ρ _ _ stmts last _ _ _ _ hexB
-  have hR : execB (callClosure ρ (n + 1)) ρ (n + 1) ⟨[], []⟩ (referenceBlocks mods' (.mk stmts last)) σ0
-      = execB (callClosure ρ (n + 1)) ρ (n + 1) envR (.mk stmts last) σR := by
-    rw [referenceBlocks_eq]
-    exact execB_append_next _ ρ _ _ stmts last _ _ _ _ hexR
-  simp only [runProgram, runChunk]
-  rw [hB, hR]
-  rcases hobs with ⟨hu, _⟩ | ⟨hu, _⟩ | h
-  · cases hu
-  · cases hu
-  · exact h.symm
-
--- non-vacuity of `bundle_refines_partial_unrequired`: one bundled module with an effectful body that nobody
--- requires (the byte inequality of the literal names is passed in: string literals do not reduce in the kernel)
+-- non-vacuity of `bundle_refines_partial_unrequired`: one bundled module with an effectful body that nobody requires
 def exUnrequired : BundleInput :=
   { M := "__DARKLUA_BUNDLE_MODULES", res := fun _ => none,
     mods := [("a", .mk [.callStmt (.call (.var "emit") none .tuple [.str [97]])] (some (.ret [.true])))],
     entry := .mk [.callStmt (.call (.var "emit") none .tuple [.call (.var "require") none .tuple [.str [46, 47, 120]]])]
       (some (.ret [.true])) }
 
-example (ρ : ExtOracle natOps) (hρ : Sem.HeapU.OracleFlat ρ) (n : Nat) (hac : bytesOf "a" ≠ bytesOf "cache") :
+example (ρ : ExtOracle natOps) (hρ : OracleFlat ρ) (n : Nat) (hac : bytesOf "a" ≠ bytesOf "cache") :
     runProgram ρ (n + 1) ["emit", "require"] exUnrequired.bundle
       = runProgram ρ (n + 1) ["emit", "require"] exUnrequired.reference :=
   bundle_refines_partial_unrequired ρ hρ _ exUnrequired n (fun _ => rfl) (by decide) (by decide) (by simp [exUnrequired])
@@ -599,9 +488,116 @@ theorem bundle_refines_partial_unrequired_driver (externs : List String) (I : Bu
     (hnodup : (I.mods.map fun nb => bytesOf nb.1).Nodup) (hcache : ∀ nb ∈ I.mods, bytesOf nb.1 ≠ bytesOf "cache")
     (hentry : I.reservedOK I.entry = true) :
     runProgram Shared.driverOracle (n + 1) externs I.bundle = runProgram Shared.driverOracle (n + 1) externs I.reference :=
-  bundle_refines_partial_unrequired _ Sem.HeapU.driverOracle_flat externs I n hres hMv hMI hnodup hcache hentry
+  bundle_refines_partial_unrequired _ driverOracle_flat externs I n hres hMv hMI hnodup hcache hentry
 
 end unrequired
+
+section onemodule
+open Sem.HeapU
+
+/-- **What remains for a required module: the call-site leaf.** In the context `bcx` (watched locals `M` ↦ cell 0
+on the left, `__ref_require` ↦ cell 2 on the right; invariant = the private objects of both preludes + the coupling
+of the two caches) the accessor call and the textbook require of `a` are related, for every closure-body relation. -/
+def LeafSound (M a : String) (BL BR : Block) : Prop :=
+  ∀ Q, QRefl Q → SoundE Q (bcx M a BL BR) (D1 M) (accessorCall M a) (refCall a)
+
+/-- **`bundle_refines_of_leaf`** — ONE bundled module `a` (arbitrary source `B`), REQUIRED anywhere in an arbitrary
+entry source (top level, inside closures, loops, …; any number of times): IF the call-site leaf is sound
+(`LeafSound`), the bundle and the reference program have the same outcome at every level ≥ 1.
+Everything else is proved here with `Sem.HeapU`: both preludes run concretely and only extend the heap, the new
+objects become private (`bump`), the context with the invariant is entered (`rebase`, `establish_I`), the two
+top-level environments satisfy `EnvOK` with the watched bindings, the two programs are the two images of one source
+(`subB_vr`), `fundB`, `observe_of_soundB`. -/
+theorem bundle_refines_of_leaf {N : NumOps} (ρ : ExtOracle N) (hρ : OracleFlat ρ) (externs : List String)
+    (I : BundleInput) (a : String) (B : Block) (n : Nat)
+    (hmods : I.mods = [(a, B)])
+    (hres : ∀ lit nm, I.res lit = some nm → nm = a)
+    (hMv : I.M ≠ "v") (hMI : I.M ≠ implName)
+    (hMr : I.M ≠ "__ref_require" ∧ I.M ≠ "__ref_modules" ∧ I.M ≠ "__ref_loaded")
+    (hac : bytesOf a ≠ bytesOf "cache")
+    (hentry : NoRefB (D1 I.M) I.entry)
+    (hleaf : LeafSound I.M a (subB I.matcher true B) (subB I.matcher false B)) :
+    runProgram ρ (n + 1) externs I.bundle = runProgram ρ (n + 1) externs I.reference := by
+  let BL := subB I.matcher true B
+  let BR := subB I.matcher false B
+  let cx := bcx I.M a BL BR
+  -- the two programs are the two images of the entry source
+  have hleaf' : ∀ e p, I.matcher e = some p → NoRefE (D1 I.M) e → VR cx (D1 I.M) (.e p.1) (.e p.2) (D1 I.M) := by
+    intro e p hm _
+    simp only [BundleInput.matcher] at hm
+    split at hm
+    · simp only [Option.map_eq_some_iff] at hm
+      obtain ⟨nm, hr, hp⟩ := hm
+      have := hres _ nm hr
+      subst this
+      subst hp
+      exact .genE hleaf
+    · cases hm
+  have hvr := subB_vr (cx := cx) hleaf' I.entry hentry
+  -- the preludes
+  obtain ⟨hc0, ht0, hf0⟩ := init_sizes (N := N) externs
+  have hlen0 : (initState externs : State N).cells.length = 0 := by rw [hc0]; rfl
+  obtain ⟨infos, σB, _, hexB, _, hfold⟩ := prelude_establishes (callClosure ρ (n + 1)) ρ n ⟨[], []⟩ I.M [(a, BL)]
+    (initState externs) (by simp) hMv hMI (by simp) (by intro nb hnb; simp at hnb; subst hnb; exact hac)
+  have hσB : σB = postL I.M a BL externs := by
+    rw [hfold]; simp [postL, hlen0, ht0]
+  subst hσB
+  have hexR := exec_refPrelude_one (callClosure ρ (n + 1)) ρ n refRequireFn (a, BR) (initState externs)
+  -- related states in the context with the invariant
+  have hs0 : SRel (VQ Cx.none) Cx.none initRel (initState externs : State N) (initState externs) :=
+    SRel.init (VQ Cx.none) externs trivial
+  have hs1 := ((hs0.extLeft (postL_ext I.M a BL externs)).extRight (postR_ext a BR externs)).bump
+  have hs : SRel (VQ cx) cx (initRel.bump (postL I.M a BL externs) (postR a BR externs)) (postL I.M a BL externs)
+      (postR a BR externs) :=
+    hs1.rebase (fun _ _ h => h) (establish_I I.M a BL BR externs (fun h => hac h.symm))
+  have he : EnvOK cx (initRel.bump (postL I.M a BL externs) (postR a BR externs)) (D1 I.M)
+      (⟨[(I.M, 0)], []⟩ : Env N) ⟨envR3, []⟩ := by
+    refine ⟨.nil, fun nm hnm => ?_, fun nm hnm => ?_, fun nm hnm => ?_⟩
+    · have h0 : ¬ I.M = nm := fun e => hnm (by simp [D1, e])
+      have h1 : ¬ "__ref_require" = nm := fun e => hnm (by simp [D1, ← e])
+      have h2 : ¬ "__ref_modules" = nm := fun e => hnm (by simp [D1, ← e])
+      have h3 : ¬ "__ref_loaded" = nm := fun e => hnm (by simp [D1, ← e])
+      simp [lookupAssoc, envR3, h0, h1, h2, h3, OptRel]
+    · simp only [cx, bcx, List.mem_cons, List.mem_nil_iff, or_false] at hnm
+      rcases hnm with h | h <;> subst h <;> simp [D1]
+    · have hw : nm = I.M ∨ nm = "__ref_require" := by simpa [D1] using hnm
+      have hr1 : ¬ "__ref_require" = I.M := fun e => hMr.1 e.symm
+      have hr2 : ¬ "__ref_modules" = I.M := fun e => hMr.2.1 e.symm
+      have hr3 : ¬ "__ref_loaded" = I.M := fun e => hMr.2.2 e.symm
+      rcases hw with h | h <;> subst h
+      · simp [cx, bcx, lookupAssoc, envR3, hr1, hr2, hr3]
+      · simp [cx, bcx, lookupAssoc, envR3, hMr.1]
+  have hobs := observe_of_soundB (fundB hvr) ρ hρ (fun _ => rfl) (n + 1) hs he
+  -- put the programs in `prelude ++ rest` form
+  simp only [BundleInput.bundle, BundleInput.reference, hmods, List.map_cons, List.map_nil]
+  cases hsb : subB I.matcher true I.entry with
+  | mk stB lastB =>
+    cases hsr : subB I.matcher false I.entry with
+    | mk stR lastR =>
+      rw [hsb, hsr] at hobs
+      have hexB' : execSs (callClosure ρ (n + 1)) ρ (n + 1) ⟨[], []⟩ (prelude I.M [(a, BL)]) (initState externs)
+          = .ok (.next ⟨[(I.M, 0)], []⟩) (postL I.M a BL externs) := by
+        rw [hexB, hlen0]
+      have h1 : execB (callClosure ρ (n + 1)) ρ (n + 1) ⟨[], []⟩ (assemble I.M [(a, BL)] (.mk stB lastB)) (initState externs)
+          = execB (callClosure ρ (n + 1)) ρ (n + 1) ⟨[(I.M, 0)], []⟩ (.mk stB lastB) (postL I.M a BL externs) := by
+        simp only [assemble]
+        exact execB_append_next _ ρ _ _ stB lastB _ _ _ _ hexB'
+      have hexR' : execSs (callClosure ρ (n + 1)) ρ (n + 1) ⟨[], []⟩
+          ([refLa, .localFn .loc "__ref_require" refRequireFn] ++ [refAssign (a, BR)]) (initState externs)
+          = .ok (.next ⟨envR3, []⟩) (postR a BR externs) := by
+        rw [hexR, hlen0]; rfl
+      have h2 : execB (callClosure ρ (n + 1)) ρ (n + 1) ⟨[], []⟩ (referenceBlocks [(a, BR)] (.mk stR lastR)) (initState externs)
+          = execB (callClosure ρ (n + 1)) ρ (n + 1) ⟨envR3, []⟩ (.mk stR lastR) (postR a BR externs) := by
+        rw [referenceBlocks_eq]
+        exact execB_append_next _ ρ _ _ stR lastR _ _ _ _ hexR'
+      simp only [runProgram, runChunk_eq_wrapCtl]
+      rw [h1, h2]
+      rcases hobs with ⟨h, _⟩ | ⟨h, _⟩ | h
+      · cases h
+      · cases h
+      · exact h.symm
+
+end onemodule
 
 /-- **`bundle_refines_partial`** (one module): the statements the bundler puts in front of the entry
 execute to exactly this: the entry's scope gains the modules identifier `M` and nothing else (no
